@@ -399,6 +399,41 @@ def extra_scenarios(ctx, uberjob):
             ctx.fail("failed-call:inputs-kept", "error-tolerant run: the input of a failed operator.getitem call stays alive while the run goes on",
                      {"callable": fn_kind})
 
+    # ---- (H) a node of a Call SUBCLASS put into the graph by hand is inert (the engine executes exact Calls only): results
+    # wired into it are released like results nobody consumes
+    from uberjob.graph import Call as _Call, PositionalArg as _Pos, Dependency as _Dep
+    for workers in (1, 3):
+        box = {"alive": []}
+
+        class MarkerCall(_Call):
+            pass
+
+        def make8():
+            b = Big()
+            box["wr"] = weakref.ref(b)
+            return b
+
+        def probe8(tag):
+            gc.collect()
+            box["alive"].append(box["wr"]() is not None)
+            return tag
+        p = uberjob.Plan()
+        a = p.call(make8)
+        marker = MarkerCall(len, scope=(), stack_frame=None)
+        p.graph.add_node(marker)
+        p.graph.add_edge(a, marker, _Pos(0))
+        probes = [p.call(probe8, i) for i in range(3)]
+        p.graph.add_edge(a, probes[0], _Dep())
+        p.add_dependency(probes[0], probes[1])
+        p.add_dependency(probes[1], probes[2])
+        try:
+            uberjob.run(p, output=[probes[2], marker], max_workers=workers, progress=None)
+        except BaseException:       # noqa
+            pass
+        ctx.case(("c16-inert-subclass-node", workers))
+        if any(box["alive"]):
+            ctx.fail("inert-node:kept", "a result wired into a Call-subclass node (which never runs) was still alive at later call boundaries: %r" % box["alive"], {"workers": workers})
+
     # ---- (B) retry: reference counting alone releases the inputs of a call whose first attempt raised
     for workers in (1, 4):
         for scheduler in (None, "random"):
